@@ -41,8 +41,11 @@ def write(mod, prop_id, tier, seed, acc, wall, violations, known, cap_hit, shard
         "wall_s": round(wall, 3),
         "violations": int(violations),
     }
-    os.makedirs(os.path.join(ROOT, "evidence"), exist_ok=True)
-    path = os.path.join(ROOT, "evidence", prop_id + ".json")
+    # runs against a scratch tree (VERIF_REPO, used for the seeded changes) must not overwrite the
+    # evidence of the real tree
+    sub = "evidence_scratch" if os.environ.get("VERIF_REPO") else "evidence"
+    os.makedirs(os.path.join(ROOT, sub), exist_ok=True)
+    path = os.path.join(ROOT, sub, prop_id + ".json")
     with open(path, "w") as f:
         json.dump(d, f, indent=1, default=str, sort_keys=True)
         f.write("\n")
